@@ -50,6 +50,15 @@ TwoPaths == {"as_mut_slice_twice", "element_downcast_mut_twice", "element_downca
              "get_mut_twice_via_view", "lazy_clone_outlives_handle", "lazy_clone_survives_consumption"}
 Outlives == {"drain_item_outlives_temp_iterator", "splice_item_outlives_temp_iterator", "drain_item_after_drop_iterator"}
 
+(* methods that change the vector need an exclusive path: called through a shared reference (erased) or through the shared   *)
+(* typed view AnyVecRef they must be rejected; the same call through `&mut` / AnyVecMut is the control                        *)
+MutatorsErased == {"push", "insert", "pop", "remove", "swap_remove", "drain", "splice", "clear", "get_mut", "at_mut", "iter_mut",
+                   "as_bytes_mut", "spare_bytes_mut", "reserve", "reserve_exact", "shrink_to_fit", "shrink_to", "downcast_mut",
+                   "set_len", "get_unchecked_mut", "downcast_mut_unchecked", "push_unchecked", "insert_unchecked"}
+MutatorsTyped  == {"push", "insert", "pop", "remove", "swap_remove", "drain", "splice", "clear", "get_mut", "at_mut", "iter_mut",
+                   "as_mut_slice", "spare_capacity_mut", "reserve", "reserve_exact", "shrink_to_fit", "shrink_to", "set_len",
+                   "get_unchecked_mut", "as_mut_ptr"}
+
 Cases ==
      { cc \in { [kind |-> "vec_loan", method |-> m.name, loan |-> m.kind, path |-> m.path, stmt |-> s,
         expect |-> IF Legal(m, s) THEN "accept" ELSE "reject"] : m \in Methods, s \in Statements } :
@@ -60,6 +69,8 @@ Cases ==
   \cup { [kind |-> "view_reuse", method |-> vm, loan |-> "view", path |-> "typed", stmt |-> mu, expect |-> "reject"]
         : vm \in ViewMethods, mu \in ViewMutations }
   \cup { [kind |-> "two_paths", method |-> p, loan |-> "second", path |-> "mixed", stmt |-> "", expect |-> "reject"] : p \in TwoPaths }
+  \cup { [kind |-> "needs_mut", method |-> m, loan |-> "shared", path |-> "erased", stmt |-> "", expect |-> "reject"] : m \in MutatorsErased }
+  \cup { [kind |-> "needs_mut", method |-> m, loan |-> "shared", path |-> "typed", stmt |-> "", expect |-> "reject"] : m \in MutatorsTyped }
   \cup { [kind |-> "outlives", method |-> p, loan |-> "second", path |-> "erased", stmt |-> "", expect |-> "reject"] : p \in Outlives }
 
 VARIABLE c
